@@ -162,7 +162,7 @@
         (ins, n)
     }
 
-//# ob name=st_span_step fn=compiler::instructions::Instructions::add_with_span kind=bounded bound="span tables of 0..=2 records (arbitrary spans incl. the default span, increasing keys), empty line table; any span" stmt="add_with_span(instr, span): the span table is unchanged exactly when its last record already has this span, otherwise exactly (rv, span) is appended; the line record (rv, span.start_line) is appended; rv is the new instruction's index"
+//# ob name=st_span_step tier=thorough fn=compiler::instructions::Instructions::add_with_span kind=bounded bound="span tables of 0..=2 records (arbitrary spans incl. the default span, increasing keys), empty line table; any span" stmt="add_with_span(instr, span): the span table is unchanged exactly when its last record already has this span, otherwise exactly (rv, span) is appended; the line record (rv, span.start_line) is appended; rv is the new instruction's index"
     #[cfg(feature = "debug")]
     #[kani::proof]
     #[kani::unwind(5)]
